@@ -287,6 +287,15 @@ def abs7(ctx, pid):
                     live = not is_del
             rv = util.path_deref(p, p.exit[1].value)
             src = _answer_source(ctx, f, rv, key)
+            if isinstance(rv, ast.Constant) and isinstance(rv.value, bool):
+                # `if key in self.wrapped_db: return True / return False` answers from the container it tested last
+                tests = [ev for ev in p.events if ev.k == "assume" and isinstance(ev.node, ast.Compare) and len(ev.node.ops) == 1
+                         and isinstance(ev.node.ops[0], (ast.In, ast.NotIn)) and isinstance(ev.node.left, ast.Name) and ev.node.left.id == key]
+                if tests:
+                    last = tests[-1]
+                    pol = last.a if isinstance(last.node.ops[0], ast.In) else not last.a
+                    if pol == rv.value and util.self_attr(last.node.comparators[0], f, "wrapped_db"):
+                        src = "wrapped"
             if incache is True and live is True:
                 row = "in-live"
             elif incache is True and live is False:
